@@ -24,6 +24,28 @@ pub static mut LAST_ALLOC: *mut u8 = core::ptr::null_mut();
 pub static mut LAST_SIZE: usize = 0;
 pub static mut LAST_ALIGN: usize = 0;
 pub static mut N_ALLOC: usize = 0;
+/// how many times the block recorded in LAST_ALLOC was handed back to the allocator
+pub static mut FREED: usize = 0;
+
+extern "C" {
+    fn free(p: *mut core::ffi::c_void);
+}
+/// Stub for `std::alloc::dealloc` (every Box/Vec drop goes through it): counts
+/// releases of the recorded block, then frees for real (CBMC's `free` model, so
+/// double/invalid frees remain failed checks).
+/// Box/Vec drops reach the allocator through `<Global as Allocator>::deallocate`.
+#[cfg(kani)]
+pub unsafe fn global_deallocate_stub(_g: &std::alloc::Global, p: core::ptr::NonNull<u8>, l: std::alloc::Layout) {
+    if l.size() != 0 {
+        dealloc_stub(p.as_ptr(), l);
+    }
+}
+pub unsafe fn dealloc_stub(p: *mut u8, _l: std::alloc::Layout) {
+    if p == LAST_ALLOC && !p.is_null() {
+        FREED += 1;
+    }
+    free(p as *mut core::ffi::c_void);
+}
 
 pub fn metadata_stub(_p: &Path) -> io::Result<Metadata> {
     Ok(unsafe { core::mem::zeroed() })
@@ -107,10 +129,15 @@ pub fn bt_stub() -> std::backtrace::Backtrace {
 pub unsafe fn alloc_stub(l: std::alloc::Layout) -> *mut u8 {
     let p = std::alloc::alloc_zeroed(l);
     core::ptr::write_bytes(p, 0xAA, l.size());
-    LAST_ALLOC = p;
-    LAST_SIZE = l.size();
-    LAST_ALIGN = l.align();
-    N_ALLOC += 1;
+    // every Vec/String/Box allocation passes through here; the backing block of
+    // `load_mem` is the one with the 64-byte alignment
+    if l.align() >= 64 {
+        LAST_ALLOC = p;
+        LAST_SIZE = l.size();
+        LAST_ALIGN = l.align();
+        N_ALLOC += 1;
+        FREED = 0;
+    }
     p
 }
 
@@ -158,6 +185,8 @@ macro_rules! fs_harness {
         #[cfg_attr(kani, kani::stub(<std::os::fd::OwnedFd as core::ops::Drop>::drop, crate::fsenv::close_stub))]
         #[cfg_attr(kani, kani::stub(std::backtrace::Backtrace::capture, crate::fsenv::bt_stub))]
         #[cfg_attr(kani, kani::stub(std::alloc::alloc, crate::fsenv::alloc_stub))]
+        #[cfg_attr(kani, kani::stub(std::alloc::dealloc, crate::fsenv::dealloc_stub))]
+        #[cfg_attr(kani, kani::stub(<std::alloc::Global as core::alloc::Allocator>::deallocate, crate::fsenv::global_deallocate_stub))]
         #[cfg_attr(kani, kani::stub(core::str::from_utf8, crate::env::from_utf8_stub))]
         $(#[$m])*
         pub fn $name() $body
